@@ -132,14 +132,14 @@ where
         &self.0
     }
     fn size(&self, proj: bool, c: Compress) -> P<usize> {
-        guard(|| if proj { sw::Projective::<C>::zero().serialized_size(c) } else { sw::Affine::<C>::identity().serialized_size(c) })
+        guard(|| if proj { crate::api::size(&sw::Projective::<C>::zero(), c) } else { crate::api::size(&sw::Affine::<C>::identity(), c) })
     }
     fn ser(&self, pt: &Pt, lambda: Option<&[UInt]>, c: Compress) -> P<SerOut> {
         guard(|| {
             let a = self.aff(pt);
             let mut w = CountingWriter::new();
             let (size, r) = match lambda {
-                None => (a.serialized_size(c), a.serialize_with_mode(&mut w, c)),
+                None => (crate::api::size(&a, c), crate::api::ser(&a, &mut w, c)),
                 Some(l) => {
                     let l: C::BaseField = f_of(&self.0.fi, l);
                     let pr = if a.infinity {
@@ -149,7 +149,7 @@ where
                         let l2 = l * l;
                         sw::Projective::<C>::new_unchecked(a.x * l2, a.y * l2 * l, l)
                     };
-                    (pr.serialized_size(c), pr.serialize_with_mode(&mut w, c))
+                    (crate::api::size(&pr, c), crate::api::ser(&pr, &mut w, c))
                 },
             };
             SerOut { bytes: w.buf, size_reported: size, err: r.err().map(errs) }
@@ -159,9 +159,9 @@ where
         guard(|| {
             let mut rd = CountingReader::new(bytes, advertised);
             let r = if proj {
-                sw::Projective::<C>::deserialize_with_mode(&mut rd, c, v).map(|p| p.into_affine())
+                crate::api::de::<sw::Projective<C>, _>(&mut rd, c, v).map(|p| p.into_affine())
             } else {
-                sw::Affine::<C>::deserialize_with_mode(&mut rd, c, v)
+                crate::api::de::<sw::Affine<C>, _>(&mut rd, c, v)
             };
             let result = r.map_err(errs).map(|a| {
                 let (pt, raw_ok) = self.pt(&a);
@@ -258,18 +258,18 @@ where
         &self.0
     }
     fn size(&self, proj: bool, c: Compress) -> P<usize> {
-        guard(|| if proj { te::Projective::<C>::zero().serialized_size(c) } else { te::Affine::<C>::zero().serialized_size(c) })
+        guard(|| if proj { crate::api::size(&te::Projective::<C>::zero(), c) } else { crate::api::size(&te::Affine::<C>::zero(), c) })
     }
     fn ser(&self, pt: &Pt, lambda: Option<&[UInt]>, c: Compress) -> P<SerOut> {
         guard(|| {
             let a = self.aff(pt);
             let mut w = CountingWriter::new();
             let (size, r) = match lambda {
-                None => (a.serialized_size(c), a.serialize_with_mode(&mut w, c)),
+                None => (crate::api::size(&a, c), crate::api::ser(&a, &mut w, c)),
                 Some(l) => {
                     let l: C::BaseField = f_of(&self.0.fi, l);
                     let pr = te::Projective::<C>::new_unchecked(a.x * l, a.y * l, a.x * a.y * l, l);
-                    (pr.serialized_size(c), pr.serialize_with_mode(&mut w, c))
+                    (crate::api::size(&pr, c), crate::api::ser(&pr, &mut w, c))
                 },
             };
             SerOut { bytes: w.buf, size_reported: size, err: r.err().map(errs) }
@@ -279,9 +279,9 @@ where
         guard(|| {
             let mut rd = CountingReader::new(bytes, advertised);
             let r = if proj {
-                te::Projective::<C>::deserialize_with_mode(&mut rd, c, v).map(|p| p.into_affine())
+                crate::api::de::<te::Projective<C>, _>(&mut rd, c, v).map(|p| p.into_affine())
             } else {
-                te::Affine::<C>::deserialize_with_mode(&mut rd, c, v)
+                crate::api::de::<te::Affine<C>, _>(&mut rd, c, v)
             };
             let result = r.map_err(errs).map(|a| {
                 let (pt, raw_ok) = self.pt(&a);
